@@ -201,6 +201,30 @@ def main():
         for dl in ((0, 3) if not thorough else (0, 0.5, 3, 20)):
             for mc in (None, 1, 2):
                 run_map_wait(v, dl, mc)
+    # a cancelled timer never fires: a Wait, or a Task sitting out its Retry interval, in a branch whose sibling fails first
+    cancelled_runs = 0
+    for kind in ("wait", "retry_delay"):
+        for late in (3, 10):
+            if kind == "wait":
+                b0 = {"StartAt": "W", "States": {"W": {"Type": "Wait", "Seconds": late, "Next": "A"}, "A": {"Type": "Pass", "End": True}}}
+            else:
+                b0 = {"StartAt": "T", "States": {"T": {"Type": "Task", "Resource": sim.FN + "f", "Retry": [{"ErrorEquals": ["States.ALL"], "IntervalSeconds": late, "MaxAttempts": 3, "BackoffRate": 1}], "Next": "A"},
+                                                 "A": {"Type": "Pass", "End": True}}}
+            b1 = {"StartAt": "V", "States": {"V": {"Type": "Wait", "Seconds": 1, "Next": "F"}, "F": {"Type": "Fail", "Error": "Boom", "Cause": "sibling"}}}
+            defn = {"StartAt": "P", "States": {"P": {"Type": "Parallel", "Branches": [b0, b1], "End": True}}}
+            w.register(ARN, defn)
+            n0 = len(w.trace)
+            w.start_execution(ARN, {})
+            r = w.run(worker=lambda req: {"errorType": "A", "errorMessage": "no"}, max_steps=300)
+            tr = list(zip(w.trace[n0:], w.trace.times[n0:]))
+            ended = [tm for t, tm in tr if t[0] == "broadcast" and t[3]["detail"]["status"] in ("SUCCEEDED", "FAILED")]
+            statuses = [t[3]["detail"]["status"] for t, tm in tr if t[0] == "broadcast"]
+            after = [(t[0], t[3] if len(t) > 3 else None) for t, tm in tr if ended and tm > ended[0] and t[0] in ("fire", "hist", "publish", "rpc") and (t[0] != "fire" or t[3] not in ("heartbeat", "handle_orphaned_responses", "log_and_acknowledge_orphaned_responses"))]
+            cancelled_runs += 1
+            d = {"form": "cancelled " + kind, "value": late, "delivery_delay": 0, "definition": defn, "run": r, "notifications": statuses, "after_the_end": [list(map(str, a)) for a in after][:6]}
+            clean()
+            if r != "quiescent" or statuses != ["RUNNING", "FAILED"] or after:
+                ck.violation("a cancelled %s timer still fired (or the execution did not fail exactly once): %r" % ("Wait" if kind == "wait" else "Retry-interval", d), {"group": "wait", "case": d})
     r = ck.eval_cases("wait", imp, "Z * Z * Z * Z * bool", wait_cases, ["c08_fire_oracle"], per_file=1000)
     if r is not None:
         for i in r["c08_fire_oracle"][:5]:
@@ -210,6 +234,7 @@ def main():
         if r2 is not None and r is not None and not r["c08_fire_oracle"]:
             for i in r2["c08_wait_model"][:3]:
                 ck.broken.append("correspondence wait: model and implementation differ on %r" % (wdesc[i],))
+    ck.add_group("cancelled_timers", cancelled_runs, cancelled_runs, [])
     ck.add_group("wait", len(wait_cases), sum(1 for d in wdesc if d["delivery_delay"] > 0), wdesc[3:5], forms=4, crash_redelivery=3)
 
     # ------------------------------------------- G3: Task timeouts
